@@ -112,7 +112,17 @@ func genLogCase(t *rapid.T, o datagen.QueryOpts, formats []string) LogCase {
 	s := datagen.GenSchemaQ(t, formats, o.QuotedValues)
 	var c LogCase
 	c.Recs = datagen.GenRecs(t, s, 25, false)
-	c.Query = datagen.GenLogQueryFor(t, s, c.Recs, o)
+	// Prefer queries that keep something: up to three draws, an empty result is accepted
+	// only on the last one (or with probability 1/4 before).
+	sorted := append([]model.Rec(nil), c.Recs...)
+	model.SortRecs(sorted)
+	for attempt := 0; attempt < 3; attempt++ {
+		c.Query = datagen.GenLogQueryFor(t, s, c.Recs, o)
+		want, err := model.EvalLog(&c.Query, sorted)
+		if err != nil || len(want) > 0 || len(c.Recs) == 0 || rapid.IntRange(0, 3).Draw(t, "accept-empty") == 0 {
+			break
+		}
+	}
 	c.Text = gen.PrintLog(&c.Query, datagen.RapidLayout{T: t, RawOK: true})
 	c.Caps = mockstore.Caps{Label: rapid.IntRange(0, 15).Draw(t, "caps-label"), Line: rapid.IntRange(0, 15).Draw(t, "caps-line")}
 	return c
